@@ -292,7 +292,7 @@ impl Client<Open> {
             final(self).session.sid == old(self).session.sid,
             res is Err ==> env_fault(),                                                               // OBL:C15.fetch_config.fails_only_on_environment_faults
 //@end
-//@extract id=client_load_config file=junos-agent/src/netconf/mod.rs impl=/impl<T: Target> Client<T, Open>/ fn=load_config rules=R1,R2,R3,R12,R17,R22 awaitcall=1 intoiter=.into_iter_()
+//@extract id=client_load_config file=junos-agent/src/netconf/mod.rs impl=/impl<T: Target> Client<T, Open>/ fn=load_config rules=R1,R2,R3,R12,R7,R17,R22 awaitcall=1 intoiter=.into_iter_() r7map=result
 //@sig pub fn load_config(&mut self, config: Updates) -> (res: Result<&mut Self, AnyErr>)
 //@contract
         requires all_loads_acked(old(self).session.trace@),
@@ -327,7 +327,7 @@ impl Client<Open> {
 //@after /let (mut )?updates = \{/
         let ghost trace_after_send = self.session.trace@;
         let ghost futs_sent = updates@;
-//@before /^\s*Ok\(self\)/
+//@before @tail
         proof { lemma_all_awaited(old(self).session.trace@, self.session.trace@, futs_sent); }
 //@end
 //@extract id=client_commit_config file=junos-agent/src/netconf/mod.rs impl=/impl<T: Target> Client<T, Open>/ fn=commit_config rules=R1,R2,R3,R17,R22 awaitcall=1
